@@ -11,6 +11,8 @@ HANDLERS = {
     "timer_py": ("harness.py.timer_cmd", "run"),
     "timer_emu": ("harness.py.timer_cmd", "run_emu"),
     "regs_py": ("harness.py.regs_cmd", "run"),
+    "dec": ("harness.py.dec_cmd", "run"),
+    "rt": ("harness.py.dec_cmd", "run_rt"),
 }
 
 
